@@ -23,6 +23,9 @@ def _num(s, ref=1.0):
     return float(s)
 
 
+PALETTE_OVERRIDE = [None]   # [(r, g, b), ...] of the selected palette, or None = the defaults written in the document
+
+
 def parse_color(s, alpha=1.0):
     """-> ((r,g,b,a) | ('fg', a), palette index or None)"""
     from PIL import ImageColor
@@ -31,6 +34,11 @@ def parse_color(s, alpha=1.0):
     m = re.match(r"var\s*\(\s*--color([0-9]+)\s*,\s*(#?\w+)\s*\)", s)
     if m:
         c, _ = parse_color(m.group(2), alpha)
+        if PALETTE_OVERRIDE[0] is not None and int(m.group(1)) < len(PALETTE_OVERRIDE[0]) and c[0] != FOREGROUND:
+            # a text engine that selected another palette: --colorN is that palette's entry (entries keep their alpha
+            # across the palettes the harness builds)
+            o = PALETTE_OVERRIDE[0][int(m.group(1))]
+            c = (o[0], o[1], o[2], c[3])
         return c, int(m.group(1))
     if s == "currentColor":
         return (FOREGROUND, alpha), None
